@@ -666,5 +666,90 @@ def r17_13(ctx):
              "configuration", f.loc(stores[0] if stores else f.node)) if attrs or stores else ctx.ok(construct, f.loc()))
 
 
+def r17_14(ctx):
+    """R17.14 the y/n keys act through the highlighted row: set_sel_node_bool_val() applies a value only when the row itself is
+    changeable (changeable(row), or the row's own prompt condition) - `assignable` alone speaks for the option, and an option
+    defined in several places can be assignable although this row's prompt is off (the row is displayed for its children, or
+    in show-all mode). The edit can then remove the row and _update_menu() raises ValueError (fixed defect 5.53)."""
+    repo = ctx.repo
+    sb = repo.func(f"{MODEL}:MenuConfigState.set_sel_node_bool_val")
+    ctx.analysed(sb.qual)
+    res = Resolver(sb.node)
+    fl = Flow(sb.node, resolver=res).run()
+    sv = [n for n in ast.walk(sb.node) if isinstance(n, ast.Call) and ast.unparse(n.func) in ("self._set_val", "self.set_val")]
+    if not sv:
+        raise AnchorError("set_sel_node_bool_val: no _set_val call")
+    construct = "MenuConfigState.set_sel_node_bool_val/the highlighted row itself must be changeable"
+    for c in sv:
+        gs = fl.guards_at(c) or set()
+        row = ["self.shown[self.sel_node_i]", "self.selected_node"]
+        row += [ast.unparse(a.targets[0]) for a in ast.walk(sb.node) if isinstance(a, ast.Assign) and len(a.targets) == 1 and isinstance(a.targets[0], ast.Name)
+                and ast.unparse(a.value) in row[:2] and res.bind_count.get(a.targets[0].id) == 1]
+        ok = any(p and ((k.startswith("self.changeable(") and any(k == f"self.changeable({r})" for r in row)) or
+                        (k.startswith("expr_value(") and any(f"{r}.prompt[1]" in k for r in row)) or
+                        (k.startswith("self._visible(") and any(k == f"self._visible({r})" for r in row))) for k, p in gs)
+        (ctx.ok(construct, sb.loc(c)) if ok else
+         ctx.bad(construct, f"the value is applied under {sorted(k for k, p in gs if p)[:3]} only: a row whose own prompt is off (second definition of an option, shown for its "
+                 "children) passes, the edit removes the row and _update_menu() raises ValueError", sb.loc(c)))
+
+
+def r17_15(ctx):
+    """R17.15 the displayed list is rebuilt after the start-up load: menuconfig() creates the state (whose constructor fills
+    `shown`) and then loads the configuration file, which changes what is visible - every path from that load to the point
+    where the state is handed to the application passes an assignment `state.shown = state.shown_nodes(...)` (or the load
+    method rebuilds the list itself). A stale list keeps a row the file has hidden; the first reset on it makes
+    _update_menu() raise ValueError (fixed defect 5.54)."""
+    repo = ctx.repo
+    f = repo.func("esp_menuconfig:menuconfig")
+    ctx.analysed(f.qual)
+    simple = (ast.If, ast.For, ast.While, ast.With, ast.Try)
+
+    def is_load(n):
+        return isinstance(n, ast.Call) and isinstance(n.func, ast.Attribute) and n.func.attr in ("load_config", "try_load", "reload_sdkconfig_file")
+
+    def is_refresh(st):
+        return (isinstance(st, ast.Assign) and any(ast.unparse(t).endswith(".shown") for t in st.targets)
+                and any(isinstance(c, ast.Call) and ast.unparse(c.func).endswith(".shown_nodes") for c in ast.walk(st.value)))
+
+    fl1 = Flow(f.node, events=lambda n: ["LOAD"] if not isinstance(n, simple) and any(is_load(c) for c in ast.walk(n)) else [], track_guards=False).run()
+    loads = [n for n in ast.walk(f.node) if is_load(n) and repo.enclosing_func(n) is f]
+    if not loads:
+        raise AnchorError("menuconfig(): the start-up load was not found")
+    # a load method of the model that rebuilds the list itself counts as load + refresh
+    self_refreshing = False
+    lm = repo.func(f"{MODEL}:MenuConfigState.load_config")
+    ctx.analysed(lm.qual)
+    k_loads = [n for n in ast.walk(lm.node) if isinstance(n, ast.Call) and ast.unparse(n.func) == "self.kconf.load_config"]
+    if k_loads:
+        lfl = Flow(lm.node, events=lambda n: (["KLOAD"] if not isinstance(n, simple) and any(c in k_loads for c in ast.walk(n)) else []), track_guards=False).run()
+        lfl2 = Flow(lm.node, events=lambda n: (["REFRESH"] if not isinstance(n, simple) and (is_refresh(n) or any(
+            isinstance(c, ast.Call) and ast.unparse(c.func) == "self._update_menu" for c in ast.walk(n))) and "KLOAD" in (lfl.events_at(n) or set()) else []),
+            track_guards=False).run()
+        self_refreshing = all(("ev", "REFRESH") in st for kind, node, st in lfl2.exits if kind != "raise")
+
+    def ev2(n):
+        if isinstance(n, simple):
+            return []
+        if is_refresh(n) and "LOAD" in (fl1.events_at(n) or set()):
+            return ["REFRESH"]
+        if self_refreshing and any(is_load(c) and c.func.attr == "load_config" and ast.unparse(c.func.value) != "kconf" for c in ast.walk(n)):
+            return ["REFRESH"]
+        return []
+    fl2 = Flow(f.node, events=ev2, track_guards=False).run()
+    uses = [n for n in ast.walk(f.node) if repo.enclosing_func(n) is f and (
+        (isinstance(n, ast.Call) and ast.unparse(n.func).endswith("MenuConfigApp")) or
+        (isinstance(n, ast.Assign) and ast.unparse(n.targets[0]) == "_module_state"))]
+    if not uses:
+        raise AnchorError("menuconfig(): the hand-over of the state (MenuConfigApp(state) / _module_state) was not found")
+    for u in uses:
+        st = repo.enclosing_stmt(u)
+        what = "MenuConfigApp(state)" if isinstance(u, ast.Call) else "_module_state = state"
+        construct = f"menuconfig/the list is rebuilt between the start-up load and {what}"
+        ok = "REFRESH" in (fl2.events_at(st) or set())
+        (ctx.ok(construct, f.loc(st)) if ok else
+         ctx.bad(construct, "the state is used with the list computed before the configuration file was loaded: a row the file hides stays displayed and the "
+                 "first reset / edit on it raises ValueError in _update_menu()", f.loc(st)))
+
+
 def rules():
-    return [("R17.13", r17_13, 1), ("R17.12", r17_12, 1), ("R17.11", r17_11, 2), ("R17.10", r17_10, 3), ("R17.9", r17_9, 2), ("R17.8", r17_8, 6), ("R17.7", r17_7, 5), ("R17.1", r17_1, 6), ("R17.5", r17_5, 4), ("R17.2", r17_2, 13), ("R17.3", r17_3, 4), ("R17.4", r17_4, 6), ("R17.6", r17_6, 3)]
+    return [("R17.15", r17_15, 2), ("R17.14", r17_14, 1), ("R17.13", r17_13, 1), ("R17.12", r17_12, 1), ("R17.11", r17_11, 2), ("R17.10", r17_10, 3), ("R17.9", r17_9, 2), ("R17.8", r17_8, 6), ("R17.7", r17_7, 5), ("R17.1", r17_1, 6), ("R17.5", r17_5, 4), ("R17.2", r17_2, 13), ("R17.3", r17_3, 4), ("R17.4", r17_4, 6), ("R17.6", r17_6, 3)]
